@@ -4,11 +4,11 @@ from vlib import *
 import props
 
 ID = "C06"
-INFO = ("YDamage (TLA+ reference): 101 damage operators plus six truncation operators (tape-driven flow collections whose closing bracket never comes) covering the fifteen classes of the property (unclosed quotes / flow collections, mismatched closers, tab indentation (also of the continuation lines of scalars and flow collections), compact collections after a tab, entries "
+INFO = ("YDamage (TLA+ reference): 105 damage operators plus six truncation operators (tape-driven flow collections whose closing bracket never comes) covering the fifteen classes of the property (unclosed quotes / flow collections, mismatched closers, tab indentation (also of the continuation lines of scalars and flow collections), compact collections after a tab, entries "
         "between two open levels, flow collections continued no deeper than their block (also behind an anchor or tag in a sequence entry, as a mapping value and as an explicit key), quoted implicit keys spanning lines, quoted scalars continued no deeper than their block collection, 1025-character keys, second root nodes, unknown / truncated "
         "escapes, alias without anchor, undeclared handle, repeated %YAML, directives (also reserved ones, also in later documents) without '---', content after '...'), each built so that the result is ill-formed whatever precedes "
         "it. Gen_Damage: TLC applies every operator (inline fragments in 6 placements: own document, block sequence entry, mapping value, flow sequence entry after a plain / an explicit entry, flow mapping value) after every well-formed stream of the C03 renderer (all tapes of length 3 + simulated long tapes) and after the empty "
-        "stream; each damaged stream is replayed on the real parser (both back-ends): it must end in an error before StreamEnd. The scanner/parser model must reject too (drift otherwise). "
+        "stream; each damaged stream is replayed on the real parser (both back-ends): it must end in an error before StreamEnd, also with CR LF / CR line breaks and with keep_tags(true) through the pull and the push interface. The scanner/parser model must reject too (drift otherwise). "
         "Plus the 94 error cases of the yaml-test-suite.",
         "Operators append a fresh final document / stream tail (the ill-formedness does not depend on the surrounding text).",
         "TLA+ reference damage operators over renderer output; TLC-generated behaviours replayed into the real parser", "7/C06")
@@ -26,7 +26,7 @@ def run(ck):
     ck.add_tlc(r)
     for o in [m["out"], sim]:
         bad = ck.wd(os.path.basename(o) + ".bad")
-        s = vh_json(["c03", "--in", o, "--out", bad])
+        s = vh_json(["c03", "--in", o, "--out", bad, "--keeptags", "1", "--breaks", "1"])
         ck.evaluations += s["runs"]
         ck.distinct += s["distinct"]
         ck.traces += s["behaviours"]
